@@ -78,20 +78,50 @@ async fn direct(deltio: std::sync::Arc<deltio::Deltio>, line: String) -> String 
 /// `drop<k> <op>`: poll the handler future at most k times, then drop it.
 async fn poll_then_drop(deltio: std::sync::Arc<deltio::Deltio>, k: usize, line: String) -> String {
     let mut fut = Box::pin(direct(deltio, line));
-    for _ in 0..k {
+    for i in 0..k {
         match futures::poll!(fut.as_mut()) {
             std::task::Poll::Ready(r) => return r,
-            std::task::Poll::Pending => tokio::task::yield_now().await,
+            std::task::Poll::Pending => {
+                // no yield after the last poll: the future is dropped before anybody else runs
+                if i + 1 < k {
+                    tokio::task::yield_now().await
+                }
+            }
         }
     }
     drop(fut);
     "dropped".into()
 }
 
+/// `dropat<k> <sleep_us> <op>`: run the handler as a task of its own (polled by the runtime like any
+/// gRPC handler), sleep, yield k times, then abort it (the future is dropped wherever it is suspended).
+async fn poll_sleep_drop(deltio: std::sync::Arc<deltio::Deltio>, k: usize, sleep_us: u64, line: String) -> String {
+    let handle = tokio::spawn(direct(deltio, line));
+    tokio::time::sleep(Duration::from_micros(sleep_us)).await;
+    for _ in 0..k {
+        tokio::task::yield_now().await;
+    }
+    if handle.is_finished() {
+        return handle.await.unwrap_or_else(|_| "PANIC".into());
+    }
+    handle.abort();
+    let _ = handle.await;
+    "dropped".into()
+}
+
 async fn one(env: &mut Env, line: &str) -> (String, String) {
     let b = tick();
     let toks = line.split_whitespace().collect::<Vec<_>>();
-    let (main, side) = if toks[0].starts_with("drop") && toks[0].len() > 4 {
+    let (main, side) = if toks[0].starts_with("dropat") && toks[0].len() > 6 {
+        let k: usize = toks[0][6..].parse().unwrap_or(0);
+        let sleep_us: u64 = toks[1].parse().unwrap_or(0);
+        let rest = toks[2..].join(" ");
+        let r = match tokio::time::timeout(Duration::from_secs(3600), poll_sleep_drop(env.deltio.clone(), k, sleep_us, rest)).await {
+            Ok(r) => r,
+            Err(_) => "HANG".to_string(),
+        };
+        (r, String::new())
+    } else if toks[0].starts_with("drop") && toks[0].len() > 4 {
         let k: usize = toks[0][4..].parse().unwrap_or(0);
         let rest = toks[1..].join(" ");
         let r = match tokio::time::timeout(Duration::from_secs(3600), poll_then_drop(env.deltio.clone(), k, rest)).await {
